@@ -30,7 +30,8 @@ GROUPS = {
     ],
     "dagadmin": [
         U("dagadmin", "PostInit"), U("dagadmin", "AliasToIds"), U("dagadmin", "PreSetup"), U("dagadmin", "Setup", "sync"), U("dagadmin", "Setup", "async"),
-        U("dagadmin", "ExecutionPostInit"), U("dagadmin", "ExecutionSetup", "sync"), U("dagadmin", "ExecutionSetup", "async"), U("dagadmin", "PostCall"), U("dagadmin", "CacheResults"), U("dagadmin", "GetMultipleNodesAliases"), U("dagadmin", "ResultsProperty"), U("dagadmin", "ConfigFromDict"),
+        U("dagadmin", "ExecutionPostInit"), U("dagadmin", "ExecutionSetup", "sync"), U("dagadmin", "ExecutionSetup", "async"), U("dagadmin", "GetSingleXnByAlias"), U("dagadmin", "ConfigFromFile", "yaml"), U("dagadmin", "ConfigFromFile", "json"), U("dagadmin", "Executor", "sync"), U("dagadmin", "Executor", "async"),
+        U("dagadmin", "PostCall"), U("dagadmin", "CacheResults"), U("dagadmin", "GetMultipleNodesAliases"), U("dagadmin", "ResultsProperty"), U("dagadmin", "ConfigFromDict"),
     ],
     "nodeexec": [U("nodeexec", "Execute"), U("nodeexec", "Dependencies"), U("nodeexec", "ConfToValues")],
     "graphbuild": [U("graphbuild", "AddExecNode"), U("graphbuild", "FromExecNodes")],
@@ -44,7 +45,7 @@ GROUPS = {
     ],
     "subdag": [U("subdag", "ConstructSubdagArgUxns"), U("subdag", "DescribeSubDag")],
     "compose": [U("compose", "AddMissingDeps"), U("compose", "Compose")],
-    "threads": [U("threads", "InDescriptionContext"), U("threads", "ThreadsafeMakeDag"), U("threads", "WrapMakeDag")],
+    "threads": [U("threads", "InDescriptionContext"), U("threads", "ThreadsafeMakeDag"), U("threads", "WrapMakeDag"), U("threads", "MakeDag")],
 }
 
 BUDGETS = dict(DEFAULT_BUDGETS)
